@@ -10,6 +10,8 @@ import (
 	"go/types"
 	"strconv"
 	"strings"
+
+	"golang.org/x/tools/go/ssa"
 )
 
 type Env struct {
@@ -106,6 +108,19 @@ func (e *Env) lookupIdent(name string) (Val, bool) {
 	if e.pkg != nil {
 		if obj := e.pkg.Scope().Lookup(name); obj != nil {
 			return e.objVal(obj)
+		}
+	}
+	// a local of the function that has not been declared on this path: an arbitrary value
+	if e.frame != nil {
+		for _, b := range e.frame.fn.Blocks {
+			for _, in := range b.Instrs {
+				if a, ok := in.(*ssa.Alloc); ok && a.Comment == name {
+					e.x.pure--
+					v := e.x.freshVal(e.st, deref(a.Type()), "undeclared!"+name)
+					e.x.pure++
+					return v, true
+				}
+			}
 		}
 	}
 	return e.fail("unknown identifier %q", name)
@@ -1048,6 +1063,21 @@ func (e *Env) evalModifies(m ast.Expr) ([]modLoc, bool) {
 		id, ok := n.Fun.(*ast.Ident)
 		if !ok || len(n.Args) != 1 {
 			break
+		}
+		if id.Name == "allof" {
+			// allof(T): every object of struct type T
+			t, err := x.P.resolveType(n.Args[0], e.pkg)
+			if err != nil {
+				e.err = "modifies: " + err.Error()
+				return nil, false
+			}
+			keys := map[string]string{}
+			keysOfPointee(t, keys)
+			var out []modLoc
+			for _, k := range sortedKeys(keys) {
+				out = append(out, modLoc{key: k, sort: keys[k]})
+			}
+			return out, true
 		}
 		v, ok := e.eval(n.Args[0])
 		if !ok {
